@@ -214,8 +214,13 @@ def files():
             return f"{type(ex).__name__}: {str(ex)[:90]}"
     m = lambda name: W.MapSpec(name, W.ColumnSpec('key', 'BYTE_ARRAY', converted='UTF8'), W.ColumnSpec('value', 'INT64', optional=True), optional=True)
     rows = [[("a", 1), ("b", None)], None, [], [("c", 3)]]
-    for name in ("m", "key"):
-        print(f"(d1) map_zip: MAP column named {name!r}: {rows} ->", read(m(name), rows, name, [W.PageLayout(version=1, encoding='PLAIN')]))
+    want = [{'a': 1, 'b': None}, None, {}, {'c': 3}]
+    for name in ("m", "key", "value"):
+        got = read(m(name), rows, name, [W.PageLayout(version=1, encoding='PLAIN')])
+        norm = got if isinstance(got, str) else [None if r is None else {k: (None if v is None else int(v)) for k, v in r.items()} for r in got]
+        print(f"(d1) map_zip: MAP column named {name!r}: {rows} ->", got)
+        # repaired by 7dfae6b (fixed-C15-map-column-named-key): keys come from the 'key' leaf whatever the column is called
+        assert norm == want, f"MAP column named {name!r}: keys / values not paired as stored: {got!r}"
     lst = lambda outer_opt, typ='INT32': W.ListSpec('c', W.ColumnSpec('element', typ, optional=True), optional=outer_opt)
     lrows = [[1, None], [], [7]]
     print("(d2) v2 null=True hard-coded, REQUIRED outer list, dictionary values:", lrows, "->",
